@@ -20,6 +20,7 @@ const (
 	chanCapKey  = "H:$chan.cap"
 	deadlineKey = "H:$timer.deadline"
 	decodedKey  = "G:$decoded" // the object filled by the most recent gob Decode (codec.go)
+	sendsKey    = "G:$sendattempts" // number of channel sends attempted so far (plain sends and send clauses of a select)
 )
 
 // lazySpecial gives the not-yet-touched value of a model location ($clock, $chan.*, $timer.*) in an epoch.
@@ -35,7 +36,7 @@ func (x *Exec) lazySpecial(key string, ep *Epoch) *Term {
 		name += "@" + ep.id
 	}
 	switch key {
-	case clockKey:
+	case clockKey, sendsKey:
 		return Var(name, SInt)
 	case decodedKey:
 		return Var(name, SRef)
@@ -146,6 +147,27 @@ func (x *Exec) selectStmt(fr *Frame, s *ast.SelectStmt, st *State) []*State {
 	c := x.ctx(fr, st)
 	var chExpr ast.Expr
 	switch cm := comm.Comm.(type) {
+	case *ast.SendStmt:
+		// select { case ch <- v: A  default: B }: the value goes into the buffer if there is room, else B runs;
+		// either way one send was attempted
+		ch := c.eval(cm.Chan)
+		v := c.eval(cm.Value)
+		c.oblige("nil", exprText(cm.Chan), Neq(ch.S, Nil), cm.Pos())
+		x.setGhostArr(st, sendsKey, Add(x.ghostInt(st, sendsKey), IntLit(1)))
+		lenArr := x.ghostArr(st, chanLenKey, SInt)
+		capArr := x.ghostArr(st, chanCapKey, SInt)
+		n := Select(lenArr, ch.S)
+		stS := st.Clone()
+		stS.assume(Lt(n, Select(capArr, ch.S)))
+		x.setGhostArr(stS, chanLenKey, Store(lenArr, ch.S, Add(n, IntLit(1))))
+		if v.Kind == KScalar && v.S.Sort == SInt {
+			x.setGhostArr(stS, chanValKey, Store(x.ghostArr(stS, chanValKey, SInt), ch.S, v.S))
+		}
+		outs := x.block(fr, comm.Body, []*State{stS})
+		stD := st.Clone()
+		stD.assume(Ge(n, Select(capArr, ch.S)))
+		outs = append(outs, x.block(fr, deflt.Body, []*State{stD})...)
+		return x.join(outs)
 	case *ast.ExprStmt:
 		u, ok := unparen(cm.X).(*ast.UnaryExpr)
 		if !ok || u.Op != token.ARROW {
@@ -179,6 +201,7 @@ func (x *Exec) sendStmt(fr *Frame, s *ast.SendStmt, st *State) []*State {
 	n := Select(lenArr, ch.S)
 	c.oblige("nil", exprText(s.Chan), Neq(ch.S, Nil), s.Pos())
 	c.oblige("send-blocks", exprText(s.Chan), Lt(n, Select(capArr, ch.S)), s.Pos())
+	x.setGhostArr(st, sendsKey, Add(x.ghostInt(st, sendsKey), IntLit(1)))
 	x.setGhostArr(st, chanLenKey, Store(lenArr, ch.S, Add(n, IntLit(1))))
 	if v.Kind == KScalar && v.S.Sort == SInt {
 		x.setGhostArr(st, chanValKey, Store(x.ghostArr(st, chanValKey, SInt), ch.S, v.S))
